@@ -34,7 +34,7 @@ add(Contract("<inline_rule2>", params={"state": "obj:StateInline"}, assume_only=
 
 ESCAPED = "(state.src[P1] in ('!','\"','#','$','%','&',\"'\",'(',')','*','+',',','-','.','/',':',';','<','=','>','?','@','[','\\\\',']','^','_','`','{','|','}','~'))"
 add(Contract(
-    "markdown_it.rules_inline.escape.escape", params={"state": "obj:StateInline", "silent": "bool"}, props=["C01", "C09"],
+    "markdown_it.rules_inline.escape.escape", params={"state": "obj:StateInline", "silent": "bool"}, props=["C01", "C09", "C17"],
     ghost={"defs": {"P0": "old(state.pos)", "P1": "old(state.pos) + 1", "T": "new_tokens(state)"}},
     requires=POSR,
     ensures=[
@@ -49,8 +49,12 @@ add(Contract(
         ("non-escapable-kept", f"implies(result and not silent and state.src[P1] != '\\n' and not {ESCAPED} and not (state.src[P1] >= '\\ud800' and state.src[P1] <= '\\udbff'), "
                                "len(T[-1].content) == 2 and T[-1].content[0] == '\\\\' and T[-1].content[1] == state.src[P1])", ["C09"]),
         ("hardbreak", "implies(result and not silent and state.src[P1] == '\\n', T[-1].type == 'hardbreak' and T[-1].nesting == 0)", ["C02"]),
+        # C17: after a hard break the leading blanks of the next line - spaces and tabs alike - are structural and skipped
+        ("hardbreak-skips-exactly-the-leading-blanks", "implies(result and state.src[P1] == '\\n', forall(k, P1 + 1, state.pos, state.src[k] == ' ' or state.src[k] == '\\t') "
+                                                       "and (state.pos == state.posMax or not (state.src[state.pos] == ' ' or state.src[state.pos] == '\\t')))", ["C17"]),
     ],
-    loops={0: {"types": {"ch": "char"}, "inv": [("pos-lo", "pos >= P1 + 1"), ("pos-hi", "pos <= maximum"), ("max", "maximum == state.posMax and maximum <= len(state.src)")], "dec": "maximum - pos"}},
+    loops={0: {"types": {"ch": "char"}, "inv": [("pos-lo", "pos >= P1 + 1"), ("pos-hi", "pos <= maximum"), ("max", "maximum == state.posMax and maximum <= len(state.src)"),
+                                                ("blanks", "forall(k, P1 + 1, pos, state.src[k] == ' ' or state.src[k] == '\\t')")], "dec": "maximum - pos"}},
 ))
 
 add(Contract(
